@@ -6,6 +6,7 @@ package main
 
 import (
 	"fmt"
+	"go/constant"
 	"go/token"
 	"go/types"
 	"strings"
@@ -945,4 +946,565 @@ func runC15x(c *Ctx) {
 		}
 	}
 	c.Check(bad == "", pkg+".doInstall#holds-reset-after-busy-check", rs[0].Pos(), "no refusal by the running-applications check can follow the reset", "doInstall drops the holds on the snap and can afterwards still refuse the refresh because the snap is busy ("+bad+"): the holding snap's episode is forgotten although nothing was refreshed, and it gets a fresh maximum hold time")
+}
+
+func runC25x(c *Ctx) {
+	P := c.P
+	pkg := "overlord/hookstate/ctlcmd"
+	c.Rule("C25-R5", "K+W", "the non-root gate lets any argument vector with -h/--help through, so the parser must treat help as terminal (flags.HelpFlag: parsing aborts before a command's Execute) and must refuse an option-looking word as the value of an option (no option type of a command implements flags.ValueValidator, which switches that refusal off)", 2)
+	run := P.Func(pkg + ".Run")
+	newParser := P.FuncObj("github.com/jessevdk/go-flags.NewNamedParser")
+	helpFlag := P.Const("github.com/jessevdk/go-flags.HelpFlag")
+	calls := CallSites(run, newParser)
+	if len(calls) != 1 {
+		c.Undecided(pkg+".Run#parser-options", run.Pos(), fmt.Sprintf("expected one flags.NewNamedParser call, found %d", len(calls)))
+	} else {
+		opts, isC := ConstInt(calls[0].Common().Args[1])
+		hv, _ := constantInt(helpFlag)
+		c.Check(isC && opts&hv != 0, pkg+".Run#help-aborts-parsing", calls[0].Pos(), "flags.HelpFlag is set", "the snapctl parser is created without flags.HelpFlag: -h/--help no longer aborts parsing, so a complete root-only command line with --help appended passes the non-root gate and is executed")
+	}
+	// option types of the command structs
+	n := 0
+	var bad []string
+	for _, pk := range []string{pkg} {
+		tp := P.typesPkg(pk)
+		if tp == nil {
+			continue
+		}
+		for _, name := range tp.Scope().Names() {
+			tn, ok := tp.Scope().Lookup(name).(*types.TypeName)
+			if !ok {
+				continue
+			}
+			st, ok := tn.Type().Underlying().(*types.Struct)
+			if !ok {
+				continue
+			}
+			for i := 0; i < st.NumFields(); i++ {
+				tag := st.Tag(i)
+				if !strings.Contains(tag, `long:"`) && !strings.Contains(tag, `short:"`) {
+					continue
+				}
+				n++
+				ft := st.Field(i).Type()
+				for _, t := range []types.Type{ft, types.NewPointer(ft)} {
+					ms := types.NewMethodSet(t)
+					for j := 0; j < ms.Len(); j++ {
+						if ms.At(j).Obj().Name() == "IsValidValue" {
+							bad = append(bad, tn.Name()+"."+st.Field(i).Name())
+						}
+					}
+				}
+			}
+		}
+	}
+	c.Check(len(bad) == 0 && n > 0, pkg+"#no-option-value-validators", run.Pos(), fmt.Sprintf("%d option fields, none with a ValueValidator", n), fmt.Sprintf("option field(s) %v implement go-flags' ValueValidator: go-flags then no longer refuses `-h` as the value of that option, while the non-root gate still reads it as a help request", bad))
+}
+
+func constantInt(c *types.Const) (int64, bool) {
+	if c == nil {
+		return 0, false
+	}
+	v, ok := constantInt64(c)
+	return v, ok
+}
+
+func runC26x(c *Ctx) {
+	P := c.P
+	c.Rule("C26-R6", "G+W", "interface-gated API access is decided on the connection's recorded interface only; the token-style credential check accepts exactly the stored set of discharges", 3)
+	fn := P.Func("daemon.requireInterfaceApiAccessImpl")
+	listContains := P.FuncObj("strutil.ListContains")
+	fIface := P.Field("overlord/ifacestate.ConnectionState.Interface")
+	n := 0
+	for _, cc := range CallSites(fn, listContains) {
+		if !ResolvesToParam(cc.Common().Args[0], fn, 3) && !VParam(fn, 3)(cc.Common().Args[0]) {
+			continue
+		}
+		n++
+		c.Check(VField(fIface)(cc.Common().Args[1]), fmt.Sprintf("daemon.requireInterfaceApiAccessImpl#matched-on-connection-interface#%d", n), cc.Pos(), "ListContains(interfaceNames, connState.Interface)", "the gating interface names are matched against something other than the interface recorded for the connection (a plug name is chosen by the snap's author)")
+	}
+	if n == 0 {
+		c.Undecided("daemon.requireInterfaceApiAccessImpl#matched-on-connection-interface", fn.Pos(), "the interface-name match was not found")
+	}
+	attach := P.FuncObj("daemon.ucrednetAttachInterface")
+	for i, cc := range CallSites(fn, attach) {
+		c.Check(VField(fIface)(cc.Common().Args[1]), fmt.Sprintf("daemon.requireInterfaceApiAccessImpl#attached-interface#%d", i+1), cc.Pos(), "the connection's interface is attached", "the interface attached to the request is not the connection's recorded interface")
+	}
+	cm := P.Func("overlord/auth.CheckMacaroon")
+	fDis := P.Field("overlord/auth.UserState.Discharges")
+	sameCount := Cmp("len(user.Discharges)==len(discharges)", VLen(VField(fDis)), token.EQL, VLen(func(v ssa.Value) bool { return VParam(cm, 2)(v) || ResolvesToParam(v, cm, 2) }))
+	fUsers := P.Field("overlord/auth.AuthState.Users")
+	n = 0
+	for _, r := range ReturnsOf(cm) {
+		if !IsSuccessReturn(r) {
+			continue
+		}
+		// only the token-style fallback (inside the loop over the stored users)
+		inLoop := false
+		for _, rl := range LoopsOver(cm, VField(fUsers)) {
+			if rl.Body != nil && rl.Body.Dominates(r.Block()) {
+				inLoop = true
+			}
+		}
+		if !inLoop {
+			continue
+		}
+		n++
+		c.Guarded(fmt.Sprintf("overlord/auth.CheckMacaroon#token-style<=same-number-of-discharges#%d", n), cm, r, []Clause{{sameCount}}, nil)
+	}
+	if n == 0 {
+		c.Undecided("overlord/auth.CheckMacaroon#token-style", cm.Pos(), "the token-style fallback was not found")
+	}
+}
+
+func runC27x(c *Ctx) {
+	P := c.P
+	pkg := "wrappers"
+	c.Rule("C27-R4", "W", "locations are computed from the instance (never from the bare snap name); a line taken from the scanner is copied before it is kept", 2)
+	// snap.MountDir & co. are never fed s.SnapName()
+	snapName := P.FuncObj("snap.(*Info).SnapName")
+	n := 0
+	var bad []string
+	for _, fn := range P.FuncsIn(pkg) {
+		for _, b := range fn.Blocks {
+			for _, in := range b.Instrs {
+				cc, ok := in.(ssa.CallInstruction)
+				if !ok {
+					continue
+				}
+				co := CalleeOf(cc)
+				if co == nil || co.Pkg() == nil || !strings.HasSuffix(co.Pkg().Path(), "/snap") {
+					continue
+				}
+				switch co.Name() {
+				case "MountDir", "MountFile", "BaseDir", "DataDir", "CommonDataDir", "UserDataDir", "HooksDir":
+				default:
+					continue
+				}
+				if co.Type().(*types.Signature).Recv() != nil {
+					continue
+				}
+				n++
+				for _, a := range cc.Common().Args {
+					if VRes(0, ToFn(snapName))(a) {
+						bad = append(bad, fmt.Sprintf("%s(%s) at %s", co.Name(), "s.SnapName()", P.Pos(cc.Pos())))
+					}
+				}
+			}
+		}
+	}
+	c.Check(len(bad) == 0, pkg+"#instance-aware-locations", token.NoPos, fmt.Sprintf("%d location computations, none from the bare snap name", n), fmt.Sprintf("a location is computed from the snap name instead of the instance name (%v): for a parallel install it points into another snap's directory", bad))
+	// scanner aliasing
+	sdf := P.Func(pkg + ".sanitizeDesktopFile")
+	scanBytes := P.FuncObj("bufio.(*Scanner).Bytes")
+	kept := ""
+	for _, b := range sdf.Blocks {
+		for _, in := range b.Instrs {
+			cc, ok := in.(*ssa.Call)
+			if !ok {
+				continue
+			}
+			bi, ok := cc.Call.Value.(*ssa.Builtin)
+			if !ok || bi.Name() != "append" {
+				continue
+			}
+			sl, ok := cc.Type().Underlying().(*types.Slice)
+			if !ok {
+				continue
+			}
+			if _, nested := sl.Elem().Underlying().(*types.Slice); !nested {
+				continue
+			}
+			for _, e := range VarargElems(cc.Call.Args[1]) {
+				if e != nil && aliasesCall(e, scanBytes) {
+					kept = P.Pos(cc.Pos())
+				}
+			}
+		}
+	}
+	c.Check(kept == "", pkg+".sanitizeDesktopFile#scanner-line-not-retained", sdf.Pos(), "no slice of scanner.Bytes() is kept across Scan calls", "a slice of scanner.Bytes() is stored for later ("+kept+"): the scanner reuses its buffer, so for files larger than the buffer already validated lines turn into later, unvalidated bytes of the file")
+}
+
+// aliasesCall: v is the result of obj or a sub-slice / conversion of it (shares its backing array).
+func aliasesCall(v ssa.Value, obj *types.Func) bool {
+	for i := 0; i < 8 && v != nil; i++ {
+		switch x := v.(type) {
+		case *ssa.Slice:
+			v = x.X
+		case *ssa.ChangeType:
+			v = x.X
+		case *ssa.Phi:
+			for _, e := range x.Edges {
+				if aliasesCall(e, obj) {
+					return true
+				}
+			}
+			return false
+		case *ssa.Call:
+			_, ok := IsCallTo(x, obj)
+			return ok
+		default:
+			return false
+		}
+	}
+	return false
+}
+
+func runC31x(c *Ctx) {
+	P := c.P
+	pkg := "store"
+	c.Rule("C31-R4", "G+K", "downloadImpl: the outcome of copying the body is what the attempt ends with (it reaches the error the loop leaves with, on every path); the partial file is opened for plain read/write, since the no-resume fallback rewrites it from offset 0", 2)
+	di := P.Func(pkg + ".downloadImpl")
+	ioCopy := P.FuncObj("io.Copy")
+	var bodyCopy ssa.CallInstruction
+	for _, cc := range CallSites(di, ioCopy) {
+		if LoopContaining(di, cc) != nil {
+			// the copy of the response body into the file+hash writer: the one whose error is kept
+			if ex := resultExtract(cc, 1); ex != nil {
+				bodyCopy = cc
+			}
+		}
+	}
+	if bodyCopy == nil {
+		c.Undecided(pkg+".downloadImpl#body-copy", di.Pos(), "the io.Copy of the response body was not found")
+	} else {
+		ex := resultExtract(bodyCopy, 1)
+		_ = ex
+		cb := bodyCopy.Block()
+		// every value the function can return on a path that went through the body copy must have been
+		// produced after the copy (its error, the digest mismatch, ...), never be a left-over from before it
+		stale := ""
+		var check func(v ssa.Value, seen map[*ssa.Phi]bool)
+		check = func(v ssa.Value, seen map[*ssa.Phi]bool) {
+			v = stripNoCell(v)
+			switch x := v.(type) {
+			case *ssa.Const:
+				// a literal nil on a path after the copy is judged by C31-R2 (digest comparison)
+			case *ssa.Phi:
+				if seen[x] {
+					return
+				}
+				seen[x] = true
+				for i, e := range x.Edges {
+					pred := x.Block().Preds[i]
+					// only edges taken after the copy
+					if pred == cb || (cb.Dominates(pred) && pred != cb) {
+						check(e, seen)
+					}
+				}
+			default:
+				if in, ok := v.(ssa.Instruction); ok {
+					if in.Block() != cb && !cb.Dominates(in.Block()) {
+						stale = P.Pos(v.Pos())
+					}
+				}
+			}
+		}
+		nPhi := 0
+		for _, rt := range ReturnsOf(di) {
+			res := stripNoCell(rt.Results[0])
+			if ph, ok := res.(*ssa.Phi); ok {
+				nPhi++
+				check(ph, map[*ssa.Phi]bool{})
+				continue
+			}
+			// defer-spilled result: the return loads a cell, look at what was stored into it
+			if ld, ok := res.(*ssa.UnOp); ok && ld.Op == token.MUL {
+				if al, ok := ld.X.(*ssa.Alloc); ok {
+					if stores, ok := cellStores(al); ok {
+						for _, st := range stores {
+							if ph, ok := stripNoCell(st.Val).(*ssa.Phi); ok {
+								nPhi++
+								check(ph, map[*ssa.Phi]bool{})
+							}
+						}
+					}
+				}
+			}
+		}
+		if nPhi == 0 {
+			c.Undecided(pkg+".downloadImpl#body-copy-error-kept", bodyCopy.Pos(), "the error value the retry loop leaves with was not found")
+		}
+		c.Check(stale == "", pkg+".downloadImpl#body-copy-error-kept", bodyCopy.Pos(), "what is returned after a body copy was produced after it", "after copying the response body downloadImpl can leave the retry loop with an error value computed before the copy ("+stale+", e.g. the nil of the successful request): a transfer that fails without being retried then ends with success, the digest check is skipped and a truncated file is accepted")
+	}
+	dl := P.Func(pkg + ".(*Store).Download")
+	openFile := P.FuncObj("os.OpenFile")
+	oAppend, _ := constantInt64(P.Const("os.O_APPEND"))
+	n := 0
+	for _, cc := range CallSites(dl, openFile) {
+		fl, isC := ConstInt(cc.Common().Args[1])
+		if !isC {
+			continue
+		}
+		n++
+		c.Check(fl&oAppend == 0, fmt.Sprintf("%s.(*Store).Download#partial-file-not-append#%d", pkg, n), cc.Pos(), "opened without O_APPEND", "the partial download file is opened with O_APPEND: the rewind (Seek to 0) of the no-resume fallback then has no effect on writes, the full body lands after the stale bytes while the fresh hash covers only the body")
+	}
+	if n == 0 {
+		c.Undecided(pkg+".(*Store).Download#partial-file", dl.Pos(), "os.OpenFile of the partial file not found")
+	}
+}
+
+func runC32x(c *Ctx) {
+	P := c.P
+	pkg := "overlord/snapshotstate/backend"
+	c.Rule("C32-R7", "L", "RestoreState.Revert removes every directory the restore created (unconditionally) before it moves the previous ones back", 2)
+	rv := P.Func(pkg + ".(*RestoreState).Revert")
+	fCreated := P.Field(pkg + ".RestoreState.Created")
+	removeAll := P.FuncObj("os.RemoveAll")
+	loops := LoopsOver(rv, VField(fCreated))
+	if len(loops) != 1 {
+		c.Undecided(pkg+".(*RestoreState).Revert#created-removed", rv.Pos(), fmt.Sprintf("expected one loop over rs.Created, found %d", len(loops)))
+		return
+	}
+	rl := loops[0]
+	var rm ssa.CallInstruction
+	for _, cc := range CallSites(rv, removeAll) {
+		if rl.Body != nil && rl.Body.Dominates(cc.Block()) {
+			rm = cc
+		}
+	}
+	if rm == nil {
+		c.Violated(pkg+".(*RestoreState).Revert#created-removed", rv.Pos(), "Revert no longer removes the directories the restore created")
+		return
+	}
+	c.SkipsOnlyAcross(pkg+".(*RestoreState).Revert#every-created-dir-removed", rl, SinkIs(rm), "os.RemoveAll(dir)", Clause{}, false)
+	c.Check(Strip(rm.Common().Args[0]) == Strip(rl.Elem), pkg+".(*RestoreState).Revert#removes-the-created-dir", rm.Pos(), "RemoveAll(dir)", "RemoveAll is not applied to the created directory")
+}
+
+func constantInt64(c *types.Const) (int64, bool) {
+	if c == nil {
+		return 0, false
+	}
+	return constant.Int64Val(constant.ToInt(c.Val()))
+}
+
+func runC28x(c *Ctx) {
+	P := c.P
+	pkg := "cmd/snap-update-ns"
+	c.Rule("C28-R4", "S", "neededChanges: the reuse analysis (skip everything under a changed directory) walks the current entries in pure mount-point order after the overname entries (byOvernameAndMountPoint), the only order in which a parent is immediately followed by everything beneath it", 1)
+	nc := P.Func(pkg + ".neededChanges")
+	sortSort := P.FuncObj("sort.Sort")
+	want := P.NamedType(pkg + ".byOvernameAndMountPoint")
+	// the copy of the current profile's entries
+	fEntries := P.Field("osutil.MountProfile.Entries")
+	var current ssa.Value
+	for _, b := range nc.Blocks {
+		for _, in := range b.Instrs {
+			cc, ok := in.(*ssa.Call)
+			if !ok {
+				continue
+			}
+			if bi, ok := cc.Call.Value.(*ssa.Builtin); ok && bi.Name() == "copy" && VFieldOf(fEntries, func(v ssa.Value) bool { return VParam(nc, 0)(v) || ResolvesToParam(v, nc, 0) })(cc.Call.Args[1]) {
+				current = Strip(cc.Call.Args[0])
+			}
+		}
+	}
+	if current == nil {
+		c.Undecided(pkg+".neededChanges#current-sorted-by-mount-point", nc.Pos(), "the copy of the current profile's entries was not found")
+		return
+	}
+	var got types.Type
+	for _, cc := range CallSites(nc, sortSort) {
+		mi, ok := cc.Common().Args[0].(*ssa.MakeInterface)
+		if !ok {
+			continue
+		}
+		if Strip(mi.X) == current {
+			got = mi.X.Type()
+		}
+	}
+	if got == nil {
+		c.Violated(pkg+".neededChanges#current-sorted-by-mount-point", nc.Pos(), "the current entries are not sorted before the reuse analysis")
+		return
+	}
+	c.Check(types.Identical(got, want), pkg+".neededChanges#current-sorted-by-mount-point", nc.Pos(), "sort.Sort(byOvernameAndMountPoint(current))", fmt.Sprintf("the current entries are sorted with %s before the reuse analysis: entries of different origins under one directory are then not adjacent, so an unchanged child can be kept while its changed parent is unmounted and mounted again", got))
+}
+
+func runC24x(c *Ctx) {
+	P := c.P
+	pkg := "snap/naming"
+	c.Rule("C24-R5", "W", "ComponentRef.Validate puts both the snap name and the component name through ValidateSnap (same characters, same 2..40 length limit as snap-confine's sc_snap_component_validate)", 2)
+	val := P.Func(pkg + ".ComponentRef.Validate")
+	validateSnap := P.FuncObj(pkg + ".ValidateSnap")
+	fSnap := P.Field(pkg + ".ComponentRef.SnapName")
+	fComp := P.Field(pkg + ".ComponentRef.ComponentName")
+	covered := map[*types.Var]bool{}
+	note := func(v ssa.Value) {
+		for _, f := range []*types.Var{fSnap, fComp} {
+			if VField(f)(v) {
+				covered[f] = true
+			}
+			// spilled value receiver: load of a field address of the receiver copy
+			if fl, ok := Strip(v).(*ssa.Field); ok && fl.X.Type() != nil {
+				if st, ok := fl.X.Type().Underlying().(*types.Struct); ok && fl.Field < st.NumFields() && st.Field(fl.Field) == f {
+					covered[f] = true
+				}
+			}
+		}
+	}
+	for _, cc := range CallSites(val, validateSnap) {
+		arg := cc.Common().Args[0]
+		note(arg)
+		// ranged element of a slice literal
+		for _, rl := range RangeLoops(val) {
+			if rl.Elem != nil && Strip(arg) == Strip(rl.Elem) && rl.Coll != nil {
+				for _, e := range VarargElems(rl.Coll) {
+					if e != nil {
+						note(e)
+					}
+				}
+			}
+		}
+	}
+	for _, f := range []*types.Var{fSnap, fComp} {
+		c.Check(covered[f], pkg+".ComponentRef.Validate#ValidateSnap("+f.Name()+")", val.Pos(), f.Name()+" is validated as a snap name", "ComponentRef.Validate does not put "+f.Name()+" through ValidateSnap: names that snap-confine refuses (one character, more than 40) are accepted by the daemon")
+	}
+}
+
+func runC30x(c *Ctx) {
+	P := c.P
+	pkg := "registry"
+	c.Rule("C30-R6", "O+W", "View.Set writes to the databag only after the whole request has been expanded and checked (a refused request writes nothing); replaceIn substitutes a placeholder wherever it occurs in the storage path", 2)
+	set := P.Func(pkg + ".(*View).Set")
+	unused := P.FuncObj(pkg + ".checkForUnusedBranches")
+	expandM := ViaGlobal(P.Global(pkg + ".getValuesThroughPaths"))
+	// databag writes: invoke DataBag.Set, in Set itself or in same-package helpers it calls
+	isBagSet := func(in ssa.Instruction) bool {
+		cc, ok := in.(ssa.CallInstruction)
+		if !ok {
+			return false
+		}
+		if cc.Common().IsInvoke() && cc.Common().Method.Name() == "Set" {
+			return true
+		}
+		if callee := StaticFn(cc); callee != nil && callee != set && callee.Pkg != nil && strings.HasSuffix(callee.Pkg.Pkg.Path(), "/"+pkg) {
+			for _, b := range callee.Blocks {
+				for _, in2 := range b.Instrs {
+					if c2, ok := in2.(ssa.CallInstruction); ok && c2.Common().IsInvoke() && c2.Common().Method.Name() == "Set" && c2.Common().Method.Pkg() != nil && strings.HasSuffix(c2.Common().Method.Pkg().Path(), "/"+pkg) {
+						return true
+					}
+				}
+			}
+		}
+		return false
+	}
+	var writes []ssa.Instruction
+	for _, b := range set.Blocks {
+		for _, in := range b.Instrs {
+			if isBagSet(in) {
+				writes = append(writes, in)
+			}
+		}
+	}
+	if len(writes) == 0 || len(CallSites(set, unused)) != 1 || len(CallsMatching(set, expandM)) == 0 {
+		c.Undecided(pkg+".(*View).Set#writes-after-checks", set.Pos(), "expected databag writes, one checkForUnusedBranches call and the expansion calls in View.Set")
+	} else {
+		okUnused := OkCall("checkForUnusedBranches ok", unused)
+		for i, w := range writes {
+			c.Guarded(fmt.Sprintf("%s.(*View).Set#write<=whole-request-checked#%d", pkg, i+1), set, w, []Clause{{okUnused}}, nil)
+			// no expansion (which can still refuse the request) after a write
+			bad := false
+			for _, e := range CallsMatching(set, expandM) {
+				if (ReachQ{Fn: set, From: LocOf(w), Sink: SinkIs(e)}).Run().Found {
+					bad = true
+				}
+			}
+			c.Check(!bad, fmt.Sprintf("%s.(*View).Set#no-expansion-after-write#%d", pkg, i+1), w.Pos(), "every rule is expanded before the first write", "View.Set can write one rule's values and afterwards still expand (and refuse) another rule of the same request: a refused request leaves part of itself in the databag")
+		}
+	}
+	ri := P.Func(pkg + ".replaceIn")
+	c.touch(ri)
+	okAll := false
+	why := "replaceIn neither walks all parts of the path nor calls strings.ReplaceAll"
+	for _, b := range ri.Blocks {
+		for _, in := range b.Instrs {
+			cc, ok := in.(ssa.CallInstruction)
+			if !ok {
+				continue
+			}
+			co := CalleeOf(cc)
+			if co == nil {
+				continue
+			}
+			switch co.FullName() {
+			case "strings.ReplaceAll":
+				okAll = true
+			case "strings.Replace":
+				n, isC := ConstInt(cc.Common().Args[3])
+				if isC && n < 0 {
+					okAll = true
+				} else {
+					why = "replaceIn calls strings.Replace with a bounded count"
+				}
+			}
+		}
+	}
+	if !okAll {
+		// the hand-written form: a loop over the parts that has no early exit
+		for _, rl := range RangeLoops(ri) {
+			early := false
+			for _, b := range ri.Blocks {
+				if rl.Body != nil && rl.Body.Dominates(b) {
+					for _, s := range b.Succs {
+						if s != rl.Header && !rl.Body.Dominates(s) && s != rl.Body {
+							early = true
+						}
+					}
+				}
+			}
+			if !early {
+				okAll = true
+			}
+		}
+	}
+	c.Check(okAll, pkg+".replaceIn#every-occurrence", ri.Pos(), "every occurrence of the placeholder is substituted", why+": a storage path that repeats a placeholder keeps a literal {placeholder} key, data is written where no rule maps it")
+}
+
+func runC29x(c *Ctx) {
+	P := c.P
+	pkg := "overlord/configstate/config"
+	c.Rule("C29-R4", "O+W", "Transaction.Set patches the cached changes (in place) only after every check that can refuse the request; configuration documents are always decoded number-preserving (jsonutil.DecodeWithNumber), never with encoding/json.Unmarshal", 2)
+	set := P.Func(pkg + ".(*Transaction).Set")
+	patch := P.FuncObj(pkg + ".PatchConfig")
+	calls := CallSites(set, patch)
+	if len(calls) != 1 {
+		c.Undecided(pkg+".(*Transaction).Set#patch-last", set.Pos(), fmt.Sprintf("expected one PatchConfig call, found %d", len(calls)))
+	} else {
+		// after a successful patch nothing can fail any more
+		okPatch := OkCall("PatchConfig ok", patch)
+		bad := ""
+		for _, b := range set.Blocks {
+			for si := range b.Succs {
+				if AtomEdges(okPatch)(b, si) {
+					r := ReachQ{Fn: set, From: &Loc{b.Succs[si], -1}, Sink: func(in ssa.Instruction) bool {
+						rt, ok := in.(*ssa.Return)
+						return ok && !IsSuccessReturn(rt)
+					}}.Run()
+					if r.Found {
+						bad = P.PathString(r.Path)
+					}
+				}
+			}
+		}
+		c.Check(bad == "" && CountAtomEdges(set, okPatch) > 0, pkg+".(*Transaction).Set#patch-last", calls[0].Pos(), "no refusal is possible once the cached changes were patched", "Transaction.Set can still refuse the request after PatchConfig has edited the transaction's cached changes in place: the refused value stays in the cache, is returned by Get and written by Commit: "+bad)
+	}
+	n := 0
+	var bad []string
+	for _, fn := range P.FuncsIn(pkg) {
+		for _, b := range fn.Blocks {
+			for _, in := range b.Instrs {
+				if cc, ok := in.(ssa.CallInstruction); ok {
+					if co := CalleeOf(cc); co != nil {
+						switch co.FullName() {
+						case "encoding/json.Unmarshal":
+							bad = append(bad, SSAFuncName(fn)+" at "+P.Pos(cc.Pos()))
+						case modPath + "/jsonutil.DecodeWithNumber":
+							n++
+						}
+					}
+				}
+			}
+		}
+	}
+	c.Check(len(bad) == 0 && n > 0, pkg+"#number-preserving-decoding", token.NoPos, fmt.Sprintf("%d decodes, all through jsonutil.DecodeWithNumber", n), fmt.Sprintf("configuration is decoded with encoding/json.Unmarshal (%v): numbers become float64 and are written back altered (9007199254740993 -> 9007199254740992)", bad))
 }
